@@ -25,7 +25,7 @@ def run(run):
     UF.regime_glue(run)
     UF.c01_frame(run)
     GL.gbs_facets(run, which=("C07",))
-    per = 1 if run.tier == "quick" else 8
+    per = 1 if run.tier == "quick" else 8 * run.tmul
     jobs = [dict(seed=run.seed, start=k * per, count=per) for k in range(12)]
     res, errs = native.pmap("contracts.scenarios", "run_null_scenarios", jobs)
     run.worker_errors(errs, len(jobs))
